@@ -63,6 +63,20 @@ func (g *c08gen) three(t string) bool { return t == "t0" || t == "t1" }
 func (g *c08gen) okStmt() string {
 	t := g.table()
 	g.uniq++
+	if g.r.Bool(0.12) {
+		// statements with several target tables: every target is published, or (when the statement is
+		// interrupted between two of them) none
+		o := "t1"
+		if t == "t1" {
+			o = "t0"
+		}
+		k := 1 + g.r.Intn(5)
+		return g.r.PickS(
+			fmt.Sprintf("UPDATE %s, %s SET %s.n = %s.n + 1, %s.n = %s.n + 2 FROM %s JOIN %s ON %s.id = %s.id;", t, o, t, t, o, o, t, o, t, o),
+			fmt.Sprintf("DELETE %s, %s FROM %s JOIN %s ON %s.id = %s.id WHERE %s.id = %d;", t, o, t, o, t, o, t, k),
+			fmt.Sprintf("UPDATE x, y SET x.n = y.n, y.n = x.n FROM %s x JOIN %s y ON x.id = y.id WHERE x.id <> %d;", t, o, k),
+			fmt.Sprintf("DELETE x, y FROM %s x JOIN %s y ON x.id = y.id + %d;", t, o, k))
+	}
 	if g.r.Bool(0.18) {
 		// statements that rebuild every record of the table (and that a cancellation can hit half way)
 		if g.added == nil {
@@ -430,10 +444,15 @@ func (c08) Eval(t *testing.T, c *Case, dec func(int) *Decider) *Outcome {
 			if y := pre.ProcYields[0]; y > 1 {
 				r := Sub(c.Seed, "stmtcancel")
 				n := 1 + r.Intn(2)
-				inStmt := c08StmtYields(pre, &meta)
+				inStmt, polls := c08StmtYields(pre, &meta)
 				for i := 0; i < n; i++ {
 					at := 1 + r.Intn(y)
-					if len(inStmt) > 0 && r.Bool(0.7) {
+					if len(polls) > 0 && r.Bool(0.3) {
+						// a cancellation is noticed where the statement polls its context (between two
+						// phases, between two target tables): aim at those points
+						at = polls[r.Intn(len(polls))]
+						o.Stats.probe("cancel-aimed-at-context-poll")
+					} else if len(inStmt) > 0 && r.Bool(0.7) {
 						// most yields of a session belong to loads and dumps: aim at the
 						// evaluation of the data-changing statements themselves
 						at = inStmt[r.Intn(len(inStmt))]
@@ -740,7 +759,7 @@ func mentions(src, tb string) bool {
 // cancellations) that lie inside the execution of the data-changing statements,
 // found by matching the scheduler step of every "@S i" marker with the steps
 // of the event log.
-func c08StmtYields(pre *RunResult, meta *c08Meta) []int {
+func c08StmtYields(pre *RunResult, meta *c08Meta) ([]int, []int) {
 	type span struct{ from, to int64 }
 	var spans []span
 	var marks []OutStamp
@@ -763,7 +782,7 @@ func c08StmtYields(pre *RunResult, meta *c08Meta) []int {
 		}
 		spans = append(spans, span{mk.Step, to})
 	}
-	var out []int
+	var out, polls []int
 	var step int64
 	y := 0
 	for _, l := range pre.Log {
@@ -774,6 +793,9 @@ func c08StmtYields(pre *RunResult, meta *c08Meta) []int {
 				for _, sp := range spans {
 					if step >= sp.from && step < sp.to {
 						out = append(out, y)
+						if strings.Contains(l, "auto:ctx:") {
+							polls = append(polls, y) // the statement polls its context here
+						}
 						break
 					}
 				}
@@ -785,5 +807,5 @@ func c08StmtYields(pre *RunResult, meta *c08Meta) []int {
 			}
 		}
 	}
-	return out
+	return out, polls
 }
